@@ -2,7 +2,7 @@
 from ..callgraph import norm
 from ..cfg import Cfg, reach
 from ..common import (body_by_name, callee_names, callgraph, family, last_named_field, logic_body,
-                      ref_field_of_local, switch_atom)
+                      ref_field_of_local, switch_atom, incomplete_tests)
 from ..facts import callee, const_int, op_const, op_local, op_place
 from ..flow import Flow, identity_through
 from .C10 import PARSE, INPROG, READS
@@ -109,9 +109,8 @@ def consume_rule(rep, prog, cfg):
                       detail={"derives_from": sorted(set(lens))})
     # Incomplete edge: reaches Ok(None) without consuming
     inc = None
-    for bb in sorted(err_region):
-        a = switch_atom(b, bb)
-        if a and a["kind"] == "call" and any(n.endswith("::is_incomplete") for n in a["names"]):
+    for a in incomplete_tests(b):
+        if a["bb"] in err_region or a["bb"] == pt["target"]:
             inc = a
     if inc is None:
         rep.fail(rule, cfg + "/incomplete test", b.loc(b.span), "no is_incomplete() test on the error of the component parse")
